@@ -340,7 +340,7 @@ class MementoFunction(MementoFunctionBase):
         version_salt: str = None,
     ) -> MementoFunctionType:
         """Re-constructs a clone of this function, modifying one or more attributes"""
-        return MementoFunction(
+        clone = MementoFunction(
             fn=fn or self.fn,
             src_fn=src_fn or self.src_fn,
             cluster_name=cluster_name or self.cluster_name,
@@ -356,6 +356,11 @@ class MementoFunction(MementoFunctionBase):
             version_salt=version_salt or self._constructor_provided_version_salt,
             register_fn=False,
         )
+        # The clone pins the version of the function it was derived from. Remember that
+        # function: whether its version was declared or computed decides if the calls it makes
+        # are validated against its dependencies.
+        clone._modifier_source = getattr(self, "_modifier_source", self)
+        return clone
 
     def call(self, *args, **kwargs):
         self._validate_dependency()
@@ -569,6 +574,9 @@ class MementoFunction(MementoFunctionBase):
             frame.memento.invocation_metadata.fn_reference_with_args.fn_reference
         )
         caller = cast(MementoFunctionType, caller_ref.memento_fn)
+        # A function called through a modifier (force_local, partial, ...) is a clone with a
+        # pinned version: validate against the function it was derived from
+        caller = getattr(caller, "_modifier_source", caller)
         if caller.explicit_version is not None:
             # Caller has declared version explicitly, so there is no need to worry that
             # dependencies were not detected properly. Carry on.
